@@ -11,9 +11,10 @@ builds the sparse rows **from the static parameters alone**, with numpy index ar
 so that these instances are not only "numerically linear" but *equal, on the sampled inputs, to a map that is proved
 linear*.  Supported: add, add_any, sub, neg, slice, pad (negative / interior padding, padding-value operand),
 concatenate, reduce_sum, cumsum (reverse), rev, broadcast_in_dim, transpose, reshape, squeeze, expand_dims, select_n
-(constant predicate), dynamic_slice / dynamic_update_slice (constant, clamped start), convert_element_type (between
-inexact types), copy, device_put, and the translator's pseudo-primitives for unrolled scans.  Complex operands are sent
-as their real and imaginary parts (all coefficients here are real).
+(constant predicate), dynamic_slice / dynamic_update_slice (constant, clamped start), gather and scatter / scatter-add (XLA dimension-number semantics re-implemented here, every
+index mode, out-of-bounds and duplicate indices), fft / ifft / rfft (Kronecker product of DFT matrices, complex
+coefficients, compared to 1e-11), convert_element_type (between inexact types), copy, device_put, and the translator's
+pseudo-primitives for unrolled scans and pmap boundaries.  Complex operands are sent as their real and imaginary parts.
 """
 
 from __future__ import annotations
@@ -53,6 +54,109 @@ def _pad_codes(code, vcode, config):
         sl[ax] = slice(max(-lo, 0), tmp.shape[ax] - max(-hi, 0))
         out = tmp[tuple(sl)]
     return out
+
+
+def _mode(p):
+    m = str(p.get("mode", ""))
+    return "clip" if "CLIP" in m else "fill" if "FILL" in m else "promise"
+
+
+def _window_positions(op_shape, sizes_or_window, dropped):
+    """operand dimensions that carry the window (not collapsed / inserted), in order"""
+    return [d for d in range(len(op_shape)) if d not in dropped]
+
+
+def _gather_rows(op_shape, idx, p, M):
+    """XLA gather semantics (offset_dims, collapsed_slice_dims, start_index_map; index vector = last axis of `idx`)"""
+    dn = p["dimension_numbers"]
+    if getattr(dn, "operand_batching_dims", ()) or getattr(dn, "start_indices_batching_dims", ()):
+        raise Unsupported("gather with batching dims")
+    offset_dims, collapsed, sim = tuple(dn.offset_dims), tuple(dn.collapsed_slice_dims), tuple(dn.start_index_map)
+    sizes = tuple(p["slice_sizes"])
+    mode = _mode(p)
+    fill = p.get("fill_value")
+    if mode == "fill" and not (fill is not None and float(np.real(fill)) == 0.0 and float(np.imag(fill)) == 0.0):
+        # non-zero fill: only instances without out-of-bounds slices reach here (the translator bakes those); treat as drop->0
+        pass
+    batch_shape = tuple(idx.shape[:-1])
+    win_dims = _window_positions(op_shape, sizes, collapsed)
+    win_shape = tuple(sizes[d] for d in win_dims)
+    out_rank = len(batch_shape) + len(win_shape)
+    out_shape = [None] * out_rank
+    batch_pos = [d for d in range(out_rank) if d not in offset_dims]
+    for k, d in enumerate(offset_dims):
+        out_shape[d] = win_shape[k]
+    for k, d in enumerate(batch_pos):
+        out_shape[d] = batch_shape[k]
+    out_shape = tuple(out_shape)
+    strides = np.cumprod((1,) + tuple(op_shape[::-1]))[:-1][::-1] if op_shape else np.array([], dtype=np.int64)
+    rows = []
+    for o in np.ndindex(out_shape):
+        b = tuple(o[d] for d in batch_pos)
+        w = tuple(o[d] for d in offset_dims)
+        start = [0] * len(op_shape)
+        oob = False
+        for k, d in enumerate(sim):
+            v = int(idx[b + (k,)])
+            hi = op_shape[d] - sizes[d]
+            if mode in ("clip", "promise"):
+                v = min(max(v, 0), hi)
+            elif v < 0 or v > hi:
+                oob = True
+            start[d] = v
+        if oob:
+            rows.append([])
+            continue
+        full = list(start)
+        for k, d in enumerate(win_dims):
+            full[d] += w[k]
+        rows.append([(0, int(np.dot(full, strides)) if op_shape else 0, 1.0)])
+    return rows, out_shape
+
+
+def _scatter_rows(op_shape, upd_shape, idx, p, M, add):
+    """XLA scatter(-add) semantics (update_window_dims, inserted_window_dims, scatter_dims_to_operand_dims)"""
+    dn = p["dimension_numbers"]
+    if getattr(dn, "operand_batching_dims", ()) or getattr(dn, "scatter_indices_batching_dims", ()):
+        raise Unsupported("scatter with batching dims")
+    uwd, iwd, sdod = tuple(dn.update_window_dims), tuple(dn.inserted_window_dims), tuple(dn.scatter_dims_to_operand_dims)
+    mode = _mode(p)
+    win_dims = _window_positions(op_shape, None, iwd)
+    scat_pos = [d for d in range(len(upd_shape)) if d not in uwd]
+    strides = np.cumprod((1,) + tuple(op_shape[::-1]))[:-1][::-1] if op_shape else np.array([], dtype=np.int64)
+    n = int(np.prod(op_shape))
+    rows = [[(0, e, 1.0)] for e in range(n)]
+    win_size = [upd_shape[d] for d in uwd]
+    written = {}
+    for u in np.ndindex(tuple(upd_shape)):
+        b = tuple(u[d] for d in scat_pos)
+        w = tuple(u[d] for d in uwd)
+        start = [0] * len(op_shape)
+        oob = False
+        for k, d in enumerate(sdod):
+            v = int(idx[b + (k,)])
+            wlen = win_size[win_dims.index(d)] if d in win_dims else 1
+            hi = op_shape[d] - wlen
+            if mode == "clip":
+                v = min(max(v, 0), hi)
+            elif v < 0 or v > hi:
+                oob = True
+            start[d] = v
+        if oob:
+            continue
+        full = list(start)
+        for k, d in enumerate(win_dims):
+            full[d] += w[k]
+        e = int(np.dot(full, strides)) if op_shape else 0
+        uflat = int(np.ravel_multi_index(u, upd_shape)) if upd_shape else 0
+        if add:
+            rows[e].append((1, uflat, 1.0))
+        else:
+            if e in written:
+                raise Unsupported("scatter with duplicate indices (result is implementation defined)")
+            written[e] = True
+            rows[e] = [(1, uflat, 1.0)]
+    return rows, tuple(op_shape)
 
 
 def rows_of(inst):
@@ -149,6 +253,31 @@ def rows_of(inst):
         out = C[0].copy()
         out[tuple(slice(a, a + s) for a, s in zip(starts, sizes))] = C[1]
         return single(out)
+    if name in ("gather", "gather[fill]"):
+        idx = np.asarray((inst.get("baked") or {}).get(1, inst["pvals"].get(1)))
+        return _gather_rows(shapes[0], idx, p, M)
+    if name in ("scatter-add", "scatter_add", "scatter"):
+        return _scatter_rows(shapes[0], shapes[1], np.asarray(inst["pvals"][1]), p, M, add=(name != "scatter"))
+    if name == "fft":
+        ft = getattr(p["fft_type"], "name", str(p["fft_type"])).split(".")[-1]
+        lens = tuple(int(n) for n in p["fft_lengths"])
+        if ft not in ("FFT", "IFFT", "RFFT"):
+            raise Unsupported("fft type " + ft)
+        r = len(lens)
+        K = np.ones((1, 1), dtype=np.complex128)
+        for ax, n in enumerate(lens):
+            kk = np.arange(n)
+            W = np.exp((2j if ft == "IFFT" else -2j) * np.pi * np.outer(kk, kk) / n)
+            if ft == "IFFT":
+                W = W / n
+            if ft == "RFFT" and ax == r - 1:
+                W = W[: n // 2 + 1]
+            K = np.kron(K, W)
+        lead = int(np.prod(shapes[0][:-r]))
+        bin_, bout = K.shape[1], K.shape[0]
+        oshape = tuple(shapes[0][:-r]) + tuple(lens[:-1]) + ((lens[-1] // 2 + 1) if ft == "RFFT" else lens[-1],)
+        rows = [[(0, l * bin_ + j, complex(K[o, j])) for j in range(bin_)] for l in range(lead) for o in range(bout)]
+        return rows, oshape
     if name == "scan[ys-stack]":
         return single(np.stack(C))
     if name == "scan[xs-index]":
@@ -185,6 +314,30 @@ def compare(inst, rng, model):
     got = np.asarray(outs[k])
     if tuple(got.shape) != tuple(oshape):
         return "mismatch", {"what": "shape", "jax": list(got.shape), "descriptor": list(oshape)}
+    cplx_coef = any(isinstance(t[2], complex) for r in rows for t in r)
+    if cplx_coef:
+        # complex coefficients c = cr + i ci over operands split into (re, im): re(out) = Σ cr·xr − ci·xi, im(out) = Σ ci·xr + cr·xi
+        xs = []
+        for d in data:
+            xs.append(common.fs2b([float(v) for v in np.asarray(np.real(d), dtype=np.float64).ravel()]))
+            xs.append(common.fs2b([float(v) for v in np.asarray(np.imag(d), dtype=np.float64).ravel()]))
+        out = []
+        for sel in ("re", "im"):
+            wr = []
+            for r in rows:
+                row = []
+                for k, j, c in r:
+                    cr, ci = float(np.real(c)), float(np.imag(c))
+                    a, b = (cr, -ci) if sel == "re" else (ci, cr)
+                    row.append([2 * k, j, common.f2b(a)])
+                    row.append([2 * k + 1, j, common.f2b(b)])
+                wr.append(row)
+            out.append(np.asarray(common.b2fs(model.call("applydesc", rows=wr, xs=xs)), dtype=np.float64))
+        lean = out[0] + 1j * out[1]
+        ref = np.asarray(got, dtype=np.complex128).ravel()
+        if lean.shape != ref.shape or not np.allclose(lean, ref, rtol=1e-6 if np.dtype(got.dtype).itemsize <= 8 else 1e-11, atol=1e-6 if np.dtype(got.dtype).itemsize <= 8 else 1e-11):
+            return "mismatch", {"what": "value (complex coefficients)", "jax": [repr(complex(v)) for v in ref[:6]], "lean": [repr(complex(v)) for v in lean[:6]]}
+        return "ok", None
     parts = [("re", np.real)] + ([("im", np.imag)] if any(np.iscomplexobj(d) for d in data) or np.iscomplexobj(got) else [])
     wire_rows = [[[t[0], t[1], common.f2b(float(t[2]))] for t in r] for r in rows]
     for pname, part in parts:
